@@ -28,6 +28,29 @@ def thresholds(res, nb, qs):
     return thr
 
 
+def parse_state_rdfs(rd, lab_code, code, nb):
+    """Per-state RDF collection -> [[kind, la, lb, symbol code, counts]]; kind 0 '@X', 1 'X->Y', 2 '~>...'."""
+    rdfs = []
+    ok = True
+    for state, coll in rd.items():
+        for r_ in coll:
+            if len(r_.y) != nb + 1:
+                ok = False
+            m = re.fullmatch(r'@(\w+)', state)
+            if m:
+                key = [0, lab_code[m.group(1)], lab_code[m.group(1)]]
+            else:
+                m = re.fullmatch(r'(\w+)->(\w+)', state)
+                if m:
+                    key = [1, lab_code[m.group(1)], lab_code[m.group(2)]]
+                elif state.startswith('~>'):
+                    key = [2, -1, -1]
+                else:
+                    key = [9, -1, -1]
+            rdfs.append(key + [code[r_.label], [int(v) for v in r_.y]])
+    return rdfs, ok
+
+
 def make_case(rng, b, fam, orient):
     from pymatgen.core import Lattice, Species, Structure
     from scipy.constants import pi  # noqa
@@ -108,24 +131,7 @@ def make_case(rng, b, fam, orient):
         raise
     rd = tr.radial_distribution(floating_specie='Li', max_dist=max_dist, resolution=res)
     lab_code = {n_: i for i, n_ in enumerate(names)}
-    rdfs = []
-    ok = True
-    for state, coll in rd.items():
-        for r_ in coll:
-            if len(r_.y) != nb + 1:
-                ok = False
-            m = re.fullmatch(r'@(\w+)', state)
-            if m:
-                key = [0, lab_code[m.group(1)], lab_code[m.group(1)]]
-            else:
-                m = re.fullmatch(r'(\w+)->(\w+)', state)
-                if m:
-                    key = [1, lab_code[m.group(1)], lab_code[m.group(2)]]
-                elif state.startswith('~>'):
-                    key = [2, -1, -1]
-                else:
-                    key = [9, -1, -1]
-            rdfs.append(key + [code[r_.label], [int(v) for v in r_.y]])
+    rdfs, ok = parse_state_rdfs(rd, lab_code, code, nb)
     F = [i + 1 for i, s in enumerate(species_all) if s == 'Li']
     if ok:
         recs.append({'b': b, 'act': 'States', 'G': G, 'N': N, 'R': R, 'pos': pos_all.tolist(), 'F': F,
@@ -157,7 +163,7 @@ def run(rep):
     n = 48 if quick else 700
     b = 0
     while b < n:
-        c = make_case(rng, b, fams[b % 6], ['chol', 'pmg', 'rot'][b % 3])
+        c = make_case(rng, b, fams[b % len(fams)], ['chol', 'pmg', 'rot'][b % 3])
         b += 1
         if c is None:
             rep.extra['rejected_by_margin'] = rep.extra.get('rejected_by_margin', 0) + 1
